@@ -77,6 +77,24 @@ func volB(x, y, z int) uint64 {
 	}
 	return 8
 }
+func volC(x, y, z int) uint64 {
+	if x < 16 {
+		return 7
+	}
+	return 8
+}
+
+// consecutive write probes alternate between two payloads, so that a write that gets through
+// always differs from what the previous one left behind
+var altCount int
+
+func alt(b, c []byte) []byte {
+	altCount++
+	if altCount%2 == 0 {
+		return c
+	}
+	return b
+}
 
 // protobuf by hand (wire format): avoids a direct dependency of the harness module
 func pbVarint(x uint64) []byte {
@@ -114,11 +132,13 @@ func pbMappingOps(mapped uint64, originals ...uint64) []byte {
 
 var (
 	lmBlocksB   []byte // labelmap block stream holding volume B (GET blocks of a scratch instance)
+	lmBlocksC   []byte
+	volCBytes   []byte
 	laBlocksB   []byte
 	lmIndex7    []byte // protobuf LabelIndex of label 7 of the scratch labelmap
 	lmIndices   []byte
 	volABytes   []byte
-	volBBytes   []byte
+	volBBytesG  []byte
 	grayA       []byte
 	grayB       []byte
 	annotA      = `[{"Pos":[10,10,10],"Kind":"PostSyn","Tags":["t1"],"Prop":{"conf":"0.9"},"Rels":[{"Rel":"PostSynTo","To":[40,10,10]}]},{"Pos":[40,10,10],"Kind":"PreSyn","Tags":["t1","t2"],"Prop":{},"Rels":[{"Rel":"PreSynTo","To":[10,10,10]}]},{"Pos":[20,40,5],"Kind":"Note","Tags":[],"Prop":{"text":"n"},"Rels":[]}]`
@@ -165,7 +185,8 @@ func node(uuid, name, rest string) string { return "/api/node/" + uuid + "/" + n
 // setup builds R -> V -> U, R -> W and fills the instances.
 func setup(run *lib.Run) {
 	volABytes = labelVol(64, volA)
-	volBBytes = labelVol(64, volB)
+	volBBytesG = labelVol(64, volB)
+	volCBytes = labelVol(64, volC)
 	grayA = grayVol(32, func(x, y, z int) byte { return byte(x + 2*y + 3*z) })
 	grayB = grayVol(32, func(x, y, z int) byte { return byte(200 - x) })
 
@@ -212,7 +233,10 @@ func setup(run *lib.Run) {
 	must("kv base", dv.Post(node(root, "kv", "key/base"), []byte("root-value")))
 	must("kvu base", dv.Post(node(root, "kvu", "key/base"), []byte("unversioned-value")))
 	if has["lmscratch"] {
-		must("lmscratch raw", dv.Post(node(root, "lmscratch", "raw/0_1_2/64_64_64/0_0_0"), volBBytes))
+		must("lmscratch raw C", dv.Post(node(root, "lmscratch", "raw/0_1_2/64_64_64/0_0_0"), volCBytes))
+		settle(root)
+		lmBlocksC = must("lmscratch blocks C", dv.Get(node(root, "lmscratch", "blocks/64_64_64/0_0_0?compression=blocks"))).Body
+		must("lmscratch raw", dv.Post(node(root, "lmscratch", "raw/0_1_2/64_64_64/0_0_0"), volBBytesG))
 		settle(root)
 		r := must("lmscratch blocks", dv.Get(node(root, "lmscratch", "blocks/64_64_64/0_0_0?compression=blocks")))
 		lmBlocksB = r.Body
@@ -476,7 +500,15 @@ func probesFor(pkg, kw, meth string, in instT) []probeT {
 			return []probeT{{Suffix: "/0_0_0/10_0_0/0_10_0/1.0", Body: grayB}}
 		}
 	case "labelmap", "labelarray", "labelblk":
-		blocksB := lmBlocksB
+		var blocksB, volBBytes []byte
+		if !rd || kw == "blocks" || kw == "ingest-supervoxels" || kw == "raw" || kw == "isotropic" {
+			blocksB, volBBytes = alt(lmBlocksB, lmBlocksC), volBBytesG
+			if altCount%2 == 0 {
+				volBBytes = volCBytes
+			}
+		} else {
+			blocksB, volBBytes = lmBlocksB, volBBytesG
+		}
 		switch kw {
 		case "raw", "isotropic":
 			if rd {
